@@ -93,34 +93,75 @@ Proof.
   - rewrite exec_stmt_S_if. unfold bind at 1. rewrite Hg. exact H.
 Qed.
 
-(** a statically truthy condition (side effects allowed, it is kept): the branches after it
-    and the [else] block are dead; identical runs for every outcome *)
+(** a KEPT condition (side effects allowed) whose truthiness is fixed: the code the rule deletes
+    behind it is dead; identical runs for every outcome.  Semantic form first. *)
+Definition always (rho : env) (va : list value) (s : store) (c : expr) (b : bool) : Prop :=
+  forall n cv s1, eval1 d n rho va c s = Ok cv s1 -> truthy cv = b.
+
+Theorem if_true_rest_dead_sem : forall c B rest els n rho va s,
+  always rho va s c true ->
+  exec_stmt d n rho va (SIf (SBranch c B :: rest) els) s =
+  exec_stmt d n rho va (SIf [SBranch c B] None) s.
+Proof.
+  intros c B rest els n rho va s Ha.
+  destruct n as [|n]; [reflexivity|]. rewrite !exec_stmt_S_if.
+  apply bind_cong_l. rewrite !sif_go_cons. apply bind_eq. intros cv s1 H1.
+  rewrite (Ha _ _ _ H1). reflexivity.
+Qed.
+
+Theorem if_false_block_dead_sem : forall c B rest els n rho va s,
+  always rho va s c false ->
+  exec_stmt d n rho va (SIf (SBranch c B :: rest) els) s =
+  exec_stmt d n rho va (SIf (SBranch c empty_block :: rest) els) s.
+Proof.
+  intros c B rest els n rho va s Ha.
+  destruct n as [|n]; [reflexivity|]. rewrite !exec_stmt_S_if.
+  apply bind_cong_l. rewrite !sif_go_cons. apply bind_eq. intros cv s1 H1.
+  rewrite (Ha _ _ _ H1). reflexivity.
+Qed.
+
+(** instance 1: the static value is known and the C08 preconditions hold *)
+Lemma always_known c b rho va s :
+  deep_safe d c = true -> ctor_pure d c = true -> env_plain s ->
+  is_truthy (evaluate c) = Some b -> always rho va s c b.
+Proof.
+  intros Hd Hc He Hb n cv s1 H1.
+  pose proof (known_run1 _ _ _ _ _ _ _ _ Hd Hc (truthy_known _ _ Hb) He H1) as Hok.
+  exact (lv_ok_truthy _ _ _ _ _ Hok Hb).
+Qed.
+
+(** instance 2: a table constructor, whatever its entries do, is truthy, and its negation
+    falsy (the conditions with side effects AND a static value that occur in practice:
+    [if {f()} then], [if not {f()} then]; [ctor_pure] excludes them from instance 1) *)
+Lemma always_table ens rho va s : always rho va s (ETable ens) true.
+Proof.
+  intros n cv s1 H. destruct n as [|n]; [discriminate|]. rewrite eval1_S in H.
+  apply bind_ok in H as (vs & s2 & Hv & H). inv_ok H. subst.
+  destruct n as [|n]; [discriminate|]. rewrite eval_S_table in Hv. inv_ok Hv. subst. reflexivity.
+Qed.
+
+Lemma always_not c b rho va s : always rho va s c b -> always rho va s (EUnary UNot c) (negb b).
+Proof.
+  intros Ha n cv s1 H. destruct n as [|n]; [discriminate|]. rewrite eval1_S in H.
+  apply bind_ok in H as (vs & s2 & Hv & H). inv_ok H. subst.
+  destruct n as [|n]; [discriminate|]. rewrite eval_S_unary in Hv.
+  apply bind_ok in Hv as (v & s3 & Hc & Hv). inv_ok Hv. subst. cbn [first truthy].
+  rewrite (Ha _ _ _ Hc). destruct b; reflexivity.
+Qed.
+
 Theorem if_true_rest_dead : forall c B rest els n rho va s,
   deep_safe d c = true -> ctor_pure d c = true -> env_plain s ->
   is_truthy (evaluate c) = Some true ->
   exec_stmt d n rho va (SIf (SBranch c B :: rest) els) s =
   exec_stmt d n rho va (SIf [SBranch c B] None) s.
-Proof.
-  intros c B rest els n rho va s Hd Hc He Hb.
-  destruct n as [|n]; [reflexivity|]. rewrite !exec_stmt_S_if.
-  apply bind_cong_l. rewrite !sif_go_cons. apply bind_eq. intros cv s1 H1.
-  pose proof (known_run1 _ _ _ _ _ _ _ _ Hd Hc (truthy_known _ _ Hb) He H1) as Hok.
-  rewrite (lv_ok_truthy _ _ _ _ _ Hok Hb). reflexivity.
-Qed.
+Proof. intros. apply if_true_rest_dead_sem. now apply always_known. Qed.
 
-(** a statically falsy condition (side effects allowed, it is kept): its block is dead *)
 Theorem if_false_block_dead : forall c B rest els n rho va s,
   deep_safe d c = true -> ctor_pure d c = true -> env_plain s ->
   is_truthy (evaluate c) = Some false ->
   exec_stmt d n rho va (SIf (SBranch c B :: rest) els) s =
   exec_stmt d n rho va (SIf (SBranch c empty_block :: rest) els) s.
-Proof.
-  intros c B rest els n rho va s Hd Hc He Hb.
-  destruct n as [|n]; [reflexivity|]. rewrite !exec_stmt_S_if.
-  apply bind_cong_l. rewrite !sif_go_cons. apply bind_eq. intros cv s1 H1.
-  pose proof (known_run1 _ _ _ _ _ _ _ _ Hd Hc (truthy_known _ _ Hb) He H1) as Hok.
-  rewrite (lv_ok_truthy _ _ _ _ _ Hok Hb). reflexivity.
-Qed.
+Proof. intros. apply if_false_block_dead_sem. now apply always_known. Qed.
 
 (** an empty [else] block can go *)
 Lemma sif_go_empty_else n rho va : forall bs s r,
@@ -142,7 +183,7 @@ Proof.
   intros bs n rho va s r H Hf. subst r.
   destruct n as [|n]; [exfalso; apply Hf; reflexivity|]. rewrite exec_stmt_S_if in *.
   apply bind_cong_l. apply sif_go_empty_else; [reflexivity|].
-  intros E. apply Hf. unfold bind. rewrite E. reflexivity.
+  intros E. apply Hf. apply bind_fuel_l. exact E.
 Qed.
 
 (** * remove_unused_while *)
@@ -209,4 +250,39 @@ Proof.
   cbv zeta. repeat split; try (vm_compute; reflexivity); try apply env_plain_initial.
   eexists. split; [vm_compute; reflexivity|]. intros E. apply (f_equal (fun x => List.length (tables x))) in E.
   vm_compute in E. discriminate E.
+Qed.
+
+(** [if 1 > 2 then ext_a() elseif x then ext_b() else ext_c() end] *)
+Example if_branch_false_example :
+  let c := EBinary BGt num1 (ENumber (NDec (to_bits (of_Z 2)) None)) in
+  let st := SIf [SBranch c (Block [call0 "ext_a"] None); SBranch (ident "x") (Block [call0 "ext_b"] None)]
+                (Some (Block [call0 "ext_c"] None)) in
+  let s := initial_store [] in
+  has_side_effects false c = false /\ deep_safe Luau c = true /\ env_plain s /\
+  is_truthy (evaluate c) = Some false /\
+  rw_if_block (Block [st] None) =
+    Block [SIf [SBranch (ident "x") (Block [call0 "ext_b"] None)] (Some (Block [call0 "ext_c"] None))] None /\
+  exists s', exec_stmt Luau 20 [] [] st s = Ok ([], SigNone) s' /\
+             trace s' = [EvCall (of_string "ext_c") []].
+Proof.
+  cbv zeta. repeat split; try (vm_compute; reflexivity); try apply env_plain_initial.
+  eexists. split; vm_compute; reflexivity.
+Qed.
+
+(** [if {ext_f()} then ext_a() elseif y then ext_b() else ext_c() end]: the condition has side
+    effects and is statically truthy; the rule keeps it and drops what follows *)
+Example if_kept_condition_example :
+  let c := ETable [TValue (ECall (ident "ext_f") None (ATuple []))] in
+  let st := SIf [SBranch c (Block [call0 "ext_a"] None); SBranch (ident "y") (Block [call0 "ext_b"] None)]
+                (Some (Block [call0 "ext_c"] None)) in
+  let s := initial_store [] in
+  has_side_effects false c = true /\ is_truthy (evaluate c) = Some true /\ ctor_pure L51 c = false /\
+  (forall rho va s0, always L51 rho va s0 c true) /\
+  rw_if_block (Block [st] None) = Block [SIf [SBranch c (Block [call0 "ext_a"] None)] None] None /\
+  exists s', exec_stmt L51 20 [] [] st s = Ok ([], SigNone) s' /\
+             trace s' = [EvCall (of_string "ext_a") []; EvCall (of_string "ext_f") []].
+Proof.
+  cbv zeta. split; [vm_compute; reflexivity|]. split; [vm_compute; reflexivity|].
+  split; [vm_compute; reflexivity|]. split; [intros; apply always_table|].
+  split; [vm_compute; reflexivity|]. eexists. split; vm_compute; reflexivity.
 Qed.
